@@ -136,7 +136,8 @@ func one(c *Ctx, src []byte, toModel bool, s *st) {
 
 func run(c *Ctx) {
 	c.Rule = "grammar-generated programs with comments next to every statement kind and blocks opening on the same line, the operator matrix of C02's corpus, " +
-		"the shipped examples and mutations; each formatted twice in both modes, 5 repetitions, after an interning history of unrelated inputs, and in a fresh process. " +
+		"the shipped examples and mutations; each formatted twice in both modes, 5 repetitions, after an interning history of unrelated inputs, and in a fresh process; " +
+		"19 x 15 (poison, victim) pairs in the four mode orders: the victim formatted right after the poison vs alone in a fresh process. " +
 		"non-trivial = distinct normal-mode outputs"
 	if c.ReplayCase != "" {
 		f := strings.Fields(c.ReplayCase)
@@ -211,6 +212,49 @@ func run(c *Ctx) {
 		}
 		c.Dist[fmt.Sprintf("fresh-process-compared(reversed=%v)", rev)] = len(lines)
 	}
+	// what one input leaves behind must not reach the next one formatted by the same process: every (poison, victim) pair,
+	// the victim formatted right after the poison, against the victim formatted alone by a fresh process
+	poisons := []string{"x = 42 // the answer", "n--", "i++", "f = func(){1}", "[1]", "a // c", "/* c */", "x /* t */", "if a {b}", "{1:2}", "a =>  a",
+		"func f() { x /* why */ }", "x = -1", "a[1]", "\"s\"", "// only", "a;", "m = {1:[2]}", "- b"}
+	victims := []string{"-x + 1", "++j", "func fact(n) { if n <= 1 { return 1 }\n n }", "(a)", "[1,2]", "{1:2}", "// c\nx", "a", "if a {b} else {c}",
+		"()=>y", "--k", "+1", "x = [1]\n[2]", "for i = 3 {i}", "/* c */ a"}
+	base := map[string]string{}
+	for _, v := range victims {
+		cmd := exec.Command(exe, "-child")
+		cmd.Stdin = strings.NewReader(Hx([]byte(v)) + "\n")
+		out, err := cmd.Output()
+		if err != nil {
+			c.Fail("fresh-process-run", "child", err.Error())
+			continue
+		}
+		base[v] = strings.TrimSpace(string(out))
+	}
+	pairs := 0
+	for _, p := range poisons {
+		pp, okp := ParseClean([]byte(p))
+		for _, v := range victims {
+			pv, okv := ParseClean([]byte(v))
+			if !okp || !okv || base[v] == "" || base[v] == "notclean" {
+				continue
+			}
+			for _, order := range [][2]bool{{false, false}, {true, true}, {false, true}, {true, false}} {
+				_, _ = Format(pp, order[0])
+				got, _ := Format(pv, order[1])
+				want := strings.Fields(base[v])
+				idx := 0
+				if order[1] {
+					idx = 1
+				}
+				if len(want) == 2 && Hx(got) != want[idx] {
+					c.Fail("history-dependent-output:after-one-input", "PAIR "+Hx([]byte(p))+" "+Hx([]byte(v)),
+						fmt.Sprintf("after formatting %q (compact=%v), %q (compact=%v) gives %q; alone in a fresh process %q", p, order[0], v, order[1], got, Unhx(want[idx])))
+				}
+				pairs++
+				c.Eval()
+			}
+		}
+	}
+	c.Dist["poison-victim-pairs"] = pairs
 	c.Dist["fixpoint"] = s.fixpoint
 	c.Dist["not-fixpoint"] = s.notfix
 	c.Dist["not-fixpoint-known-pattern"] = s.known
